@@ -2,6 +2,7 @@ package rules
 
 import (
 	"fmt"
+	"go/constant"
 	"go/token"
 	"go/types"
 	"strings"
@@ -158,6 +159,290 @@ func runC16(c *core.Ctx) {
 			}
 		}
 		c.Check(len(loads) > 0 && bad == "", key+"#loads-raw-block", p.Pos(pos), "blocks to be rebuilt are loaded with Fill", "the transform loads a block it is going to rebuild and store back through LinkSystem."+bad+" (directly or via a helper): with a NodeReifier configured the reified view is rebuilt and stored, and whatever the view hides is lost from the stored block")
+	}
+
+	c.Rule("C16.onecall", "the callback runs once per target: in the focused transform no recursive descent (which ends in another invocation of the TransformFn for the same target) is reachable, within one activation, after the activation has invoked the TransformFn itself - the value the first invocation returned is the one that is placed, and a callback that is not idempotent (hands out ids, appends) is not run twice for one insert", 1)
+	for _, tf := range tfns {
+		fn := tf.fn
+		if tr.underWalkAPI(fn) {
+			continue // the transforming walk calls back at every matched node by design
+		}
+		var cbs []ssa.CallInstruction
+		for _, ci := range core.CallsR(fn) {
+			if g := ci.Parent(); g != fn && tr.recursive(g) {
+				continue
+			}
+			if callbackType(fn, ci) == "TransformFn" {
+				cbs = append(cbs, ci)
+			}
+		}
+		if len(cbs) == 0 {
+			continue
+		}
+		key := rel + "." + tf.label
+		isDescent := func(in ssa.Instruction) bool {
+			ci, ok := in.(ssa.CallInstruction)
+			return ok && tr.descent(fn, ci)
+		}
+		bad := false
+		var wp []string
+		pos := fn.Pos()
+		for _, cb := range cbs {
+			if path, reached := core.Reach(fn, cb, isDescent, nil, nil); reached {
+				bad = true
+				wp = p.Witness(path)
+				pos = cb.Pos()
+			}
+		}
+		c.Check(!bad, key+"#callback-then-no-descent", p.Pos(pos), "after the callback ran, the activation places its result and does not descend again", "a recursive descent is reachable after the TransformFn was invoked in the same activation: for a target that does not exist yet the callback runs a second time in the descent and the result of the first run is thrown away", wp...)
+	}
+
+	c.Rule("C16.callbacknode", "the callback sees the node at the target: the node handed to the TransformFn by a transform function never derives from the result of Selector.Match (for a subset matcher that is a sliced copy, so an identity transform would truncate the node and an update would be computed from the slice)", 2)
+	for _, tf := range tfns {
+		fn := tf.fn
+		ncb := 0
+		for _, ci := range core.CallsR(fn) {
+			if g := ci.Parent(); g != fn && tr.recursive(g) {
+				continue
+			}
+			if callbackType(fn, ci) != "TransformFn" {
+				continue
+			}
+			ncb++
+			args := ci.Common().Args
+			bad := false
+			for _, a := range args {
+				if !isNodeType(a.Type()) {
+					continue
+				}
+				for w := range core.BackSlice(a, core.SliceOpts{Stores: true}) {
+					if e, ok := w.(*ssa.Extract); ok {
+						w = e.Tuple
+					}
+					if cl, ok := w.(*ssa.Call); ok && cl.Call.IsInvoke() && cl.Call.Method.Name() == "Match" {
+						bad = true
+					}
+				}
+			}
+			c.Check(!bad, fmt.Sprintf("%s.%s#callback-node%d", rel, tf.label, ncb), p.Pos(ci.Pos()), "the callback is given the node at the position", "the node handed to the TransformFn derives from Selector.Match: with a subset matcher the callback sees (and an identity transform stores) only the matched slice of a string or bytes node")
+		}
+	}
+
+	c.Rule("C16.handled", "the focused transform reports success only after it has dealt with the target: every return of the focused transform with a nil error is reachable only through an invocation of the TransformFn or a recursive descent towards the target - there is no way out that leaves the tree as it was and says the update happened", 1)
+	for _, tf := range tfns {
+		fn := tf.fn
+		if tr.underWalkAPI(fn) {
+			continue
+		}
+		errIdx := core.ErrResultIndex(fn)
+		if errIdx < 0 {
+			continue
+		}
+		handled := func(in ssa.Instruction) bool {
+			ci, ok := in.(ssa.CallInstruction)
+			if !ok {
+				return false
+			}
+			return callbackType(fn, ci) == "TransformFn" || tr.descent(fn, ci)
+		}
+		bad := false
+		var wp []string
+		pos := fn.Pos()
+		for _, ret := range core.Returns(fn) {
+			if core.ResultNilness(ret, errIdx) == core.NonNil {
+				continue
+			}
+			if path, reached := core.Reach(fn, nil, successReturn(ret, errIdx), nil, handled); reached {
+				bad = true
+				wp = p.Witness(path)
+				pos = ret.Pos()
+			}
+		}
+		c.Check(!bad, rel+"."+tf.label+"#success-only-after-target-handled", p.Pos(pos), "success is reported only after the callback ran or the descent towards the target was made", "the focused transform can return nil without having invoked the TransformFn or descended towards the target: the update is silently lost (for example behind a link whose loader declines) while the caller is told it happened", wp...)
+	}
+
+	c.Rule("C16.createparents", "missing parents are created only when asked to: in the focused transform, every recursive descent that enters create mode (it hands down a nil node from an activation that has a node of its own) is reachable only over an edge on which the create-parents flag is true or the remaining path is known to end here (its length compared against a constant that bounds it to this step) - on every kind of container, not only maps", 2)
+	nCreate := 0
+	for _, tf := range tfns {
+		fn := tf.fn
+		if tr.underWalkAPI(fn) {
+			continue
+		}
+		// the flag: a boolean parameter, or a boolean field of an unexported struct parameter (the values of one edit
+		// bundled together)
+		var node *ssa.Parameter
+		flagParams := map[ssa.Value]bool{}
+		flagFields := map[core.FieldID]bool{}
+		for _, prm := range fn.Params {
+			t := prm.Type()
+			if b, ok := t.Underlying().(*types.Basic); ok && b.Kind() == types.Bool {
+				flagParams[prm] = true
+			}
+			if node == nil && isNodeType(t) {
+				node = prm
+			}
+			if pt, ok := t.Underlying().(*types.Pointer); ok {
+				t = pt.Elem()
+			}
+			if st, ok := t.Underlying().(*types.Struct); ok {
+				nt := namedOfType(t)
+				if nt == nil || nt.Obj().Exported() || nt.Obj().Pkg() != fn.Pkg.Pkg {
+					continue
+				}
+				for i := 0; i < st.NumFields(); i++ {
+					if b, ok := st.Field(i).Type().Underlying().(*types.Basic); ok && b.Kind() == types.Bool {
+						flagFields[core.FieldID{Type: nt.Obj(), Index: i}] = true
+					}
+				}
+			}
+		}
+		if len(flagParams)+len(flagFields) == 0 || node == nil {
+			continue
+		}
+		isFlag := func(v ssa.Value) bool {
+			v = core.Strip(v)
+			if flagParams[v] {
+				return true
+			}
+			if fid, _, ok := core.FieldOfLoad(v); ok && flagFields[fid] {
+				return true
+			}
+			return false
+		}
+		inCreateMode := core.EdgesWhere(fn, func(r core.Rel) bool {
+			return r.Op == token.EQL && core.Strip(r.X) == ssa.Value(node) && core.IsNilConst(r.Y)
+		})
+		permitted := core.BoolEdgesWhere(fn, isFlag, true)
+		for e := range core.EdgesWhere(fn, func(r core.Rel) bool {
+			lc, ok := core.Strip(r.X).(*ssa.Call)
+			if !ok || !core.IsMethod(lc, core.ModPath+"/datamodel", "Path", "Len") {
+				return false
+			}
+			ub, ok := r.UpperBoundConst()
+			return ok && constant.Compare(ub, token.LEQ, constant.MakeInt64(1))
+		}) {
+			permitted[e] = true
+		}
+		n := 0
+		for _, ci := range core.CallsR(fn) {
+			if !tr.descent(fn, ci) {
+				continue
+			}
+			g := ci.Common().StaticCallee()
+			// the node handed down
+			enters := false
+			for i, prm := range g.Params {
+				if isNodeType(prm.Type()) && i < len(ci.Common().Args) && core.IsNilConst(ci.Common().Args[i]) {
+					enters = true
+				}
+				if isNodeType(prm.Type()) {
+					break
+				}
+			}
+			if !enters {
+				continue
+			}
+			already := false
+			for e := range inCreateMode {
+				if core.EdgeDominates(e, ci.Block()) {
+					already = true
+				}
+			}
+			if already {
+				continue
+			}
+			n++
+			path, reached := core.Reach(fn, nil, func(in ssa.Instruction) bool { return in == ssa.Instruction(ci) }, permitted, nil)
+			c.Check(!reached, fmt.Sprintf("%s.%s#create-mode-entry/%d#only-when-permitted", rel, tf.label, n), p.Pos(ci.Pos()), "create mode is entered only with the flag set or at the last step", "the focused transform hands a nil node down (create mode) on a path on which the create-parents flag was not found true and the remaining path was not found to end here: missing parents are created although the caller did not ask for it", p.Witness(path)...)
+		}
+		nCreate += n
+	}
+	if nCreate == 0 {
+		c.Undecided(rel+"#create-mode-entry", "-", "no descent that enters create mode found in the transform functions that take a create-parents flag")
+	}
+
+	c.Rule("C16.sentinel", "a list position taken from the path is not mistaken for the append marker: where a transform function merges the number parsed from a segment (PathSegment.Index) with a constant it uses internally for 'no position' (append), the parsed number reaches the merge only over an edge that excludes that constant - otherwise the segment \"-1\" (or any negative number) is an append", 1)
+	for _, tf := range tfns {
+		fn := tf.fn
+		n := 0
+		for _, g := range core.RegionOf(fn).Fns {
+			core.Instrs(g, func(in ssa.Instruction) {
+				phi, ok := in.(*ssa.Phi)
+				if !ok {
+					return
+				}
+				var parsed *ssa.Extract
+				var marks []constant.Value
+				parsedPred := -1
+				for i, ev := range phi.Edges {
+					switch x := ev.(type) {
+					case *ssa.Extract:
+						if cl, ok := x.Tuple.(*ssa.Call); ok && x.Index == 0 && core.IsMethod(cl, core.ModPath+"/datamodel", "PathSegment", "Index") {
+							parsed, parsedPred = x, i
+						}
+					case *ssa.Const:
+						if x.Value != nil && x.Value.Kind() == constant.Int {
+							marks = append(marks, x.Value)
+						}
+					}
+				}
+				if parsed == nil || len(marks) == 0 {
+					return
+				}
+				n++
+				pred := phi.Block().Preds[parsedPred]
+				for _, k := range marks {
+					excl := core.EdgesWhere(g, func(r core.Rel) bool {
+						if core.Strip(r.X) != ssa.Value(parsed) {
+							return false
+						}
+						cv := core.ConstVal(r.Y)
+						if cv == nil || cv.Kind() != constant.Int {
+							return false
+						}
+						switch r.Op {
+						case token.GEQ:
+							return constant.Compare(cv, token.GTR, k)
+						case token.GTR:
+							return constant.Compare(cv, token.GEQ, k)
+						case token.LEQ:
+							return constant.Compare(cv, token.LSS, k)
+						case token.LSS:
+							return constant.Compare(cv, token.LEQ, k)
+						case token.NEQ:
+							return constant.Compare(cv, token.EQL, k)
+						case token.EQL:
+							return constant.Compare(cv, token.NEQ, k)
+						}
+						return false
+					})
+					// is there a way from the parse to the merge, arriving with the parsed number, that passes no such test?
+					blocked := map[core.Edge]bool{}
+					for e := range excl {
+						blocked[e] = true
+					}
+					for _, q := range phi.Block().Preds {
+						if q == pred {
+							continue
+						}
+						for si, sb := range q.Succs {
+							if sb == phi.Block() {
+								blocked[core.Edge{From: q, Succ: si}] = true
+							}
+						}
+					}
+					direct := false
+					for si, sb := range pred.Succs {
+						if sb == phi.Block() && excl[core.Edge{From: pred, Succ: si}] {
+							direct = true
+						}
+					}
+					_, reached := core.Reach(g, parsed.Tuple.(*ssa.Call), func(in ssa.Instruction) bool { return in == ssa.Instruction(phi) }, blocked, nil)
+					ok := len(excl) > 0 && (direct || !reached)
+					c.Check(ok, fmt.Sprintf("%s.%s#position-or-marker/%d#marker-%s-excluded", rel, tf.label, n, k.ExactString()), p.Pos(parsed.Tuple.(*ssa.Call).Pos()), "the parsed position cannot equal the internal marker", "the number parsed from the path segment is merged with the internal marker "+k.ExactString()+" without a test that keeps the two apart: a segment that spells that number is treated as the marker (an append) instead of being refused as out of range")
+				}
+			})
+		}
 	}
 
 	c.Rule("C16.protocol", "the transform functions keep to the map-assembler protocol on every path: after a key was assigned through AssembleKey the next call on that assembler is AssembleValue (C12.client restricted to package traversal)", 4)
